@@ -268,23 +268,46 @@ class SignatureInfo:
     # resulting `Partial`.
     parameters = list(self.parameters.values())
     positional_values = []
+    # Positional parameters that have no value and were left out of
+    # `positional_values` (only when `include_no_value` is False). A later
+    # positional value can only be passed if these slots are filled as well,
+    # otherwise it would be bound to the wrong parameter.
+    skipped = []
+
+    def fill_skipped():
+      for skipped_param in skipped:
+        if skipped_param.default is skipped_param.empty:
+          raise TypeError(
+              f'No value for positional parameter {skipped_param.name!r}, '
+              'which precedes positional arguments that have values.'
+          )
+        positional_values.append(skipped_param.default)
+      skipped.clear()
+
     for index, param in enumerate(parameters):
       if param.kind == param.POSITIONAL_ONLY:
         if index in arguments:
+          fill_skipped()
           positional_values.append(arguments[index])
           del arguments[index]
         elif include_no_value:
           positional_values.append(self.get_default(index, NO_VALUE))
+        else:
+          skipped.append(param)
       if param.kind == param.POSITIONAL_OR_KEYWORD:
         if include_pos_or_kw_in_args or self.var_positional_start in arguments:
           if param.name in arguments:
+            fill_skipped()
             positional_values.append(arguments[param.name])
             del arguments[param.name]
           elif include_no_value:
             positional_values.append(self.get_default(index, NO_VALUE))
+          else:
+            skipped.append(param)
     if self.var_positional_start is not None:
       index = self.var_positional_start
       while index in arguments:
+        fill_skipped()
         positional_values.append(arguments[index])
         del arguments[index]
         index += 1
